@@ -133,7 +133,15 @@ def gen(
             "rt",
         ) as f:
             imports = "".join(
-                map(to_code, get_at_root(ast.parse(f.read()), (Import, ImportFrom)))
+                map(
+                    # `ast.unparse` (Python >= 3.9) emits no trailing newline, `astor.to_source` does
+                    lambda import_line: import_line
+                    if import_line.endswith("\n")
+                    else "{}\n".format(import_line),
+                    map(
+                        to_code, get_at_root(ast.parse(f.read()), (Import, ImportFrom))
+                    ),
+                )
             )
 
     module_path, _, symbol_name = input_mapping.rpartition(".")
